@@ -126,11 +126,14 @@ type earlyCheck struct {
 }
 
 func (e earlyCheck) CheckConnection(ctx context.Context, state *module.ConnState) error {
-	simrt.Point("chk:"+e.Label, "early")
 	addr := ""
 	if state != nil && state.RemoteAddr != nil {
 		addr = state.RemoteAddr.String()
 	}
+	// (runs on an anonymous goroutine of an errgroup: the connection goes
+	// into the key, or two clients greeting at once would be indistinguishable
+	// to the scheduler)
+	simrt.Point("chk:"+e.Label, "early|"+addr)
 	if e.w.failEarly[addr] {
 		delete(e.w.failEarly, addr)
 		e.w.s.Stat("fault_check_early_reject")
